@@ -33,7 +33,7 @@ def plan(tier, seed):
 def gen(tier, seed, index):
     rng = G.rng_for(seed, 'C12', tier, index)
     cls = CLASSES[index % len(CLASSES)]
-    forced = [['many-rules', 'jpre-shape', 'shared-factor', 'start-arity', 'no-edges-rule', 'edge-twice', 'edgeless-internal', 'plain'][(index // 4) % 8]]
+    forced = [['many-rules', 'jpre-shape', 'shared-factor', 'start-arity', 'no-edges-rule', 'edge-twice', 'edgeless-internal', 'plain', 'unit-base'][(index // 4) % 9]]
     spec = G.gen_spec(rng, cls, forced, allow_inf=False, wdomain='log' if index % 3 == 0 else 'real', grid=index % 3 == 0,
                       max_scc=5 if index % 2 else 3, max_nts=5 if index % 2 else 4, max_dom=2 if index % 2 else 3)
     return spec, dict(cls=cls, forced=forced)
